@@ -20,7 +20,7 @@ def main():
     out = f'/verif/seeded/{sid}'
     os.makedirs(out, exist_ok=True)
     for f in ('patch.diff', 'demo.rs', 'notes.md'):
-        if os.path.exists(os.path.join(src, f)):
+        if os.path.exists(os.path.join(src, f)) and os.path.abspath(os.path.join(src, f)) != os.path.abspath(os.path.join(out, f)):
             shutil.copy(os.path.join(src, f), os.path.join(out, f))
     meta = {'id': sid, 'breaks_property': prop, 'validated_at': time.strftime('%Y-%m-%d %H:%M:%S')}
     notes = open(os.path.join(out, 'notes.md')).read() if os.path.exists(os.path.join(out, 'notes.md')) else ''
